@@ -384,7 +384,7 @@ PROPS["C18"] = dict(
                     "collections-from-64-element-arrays": 9}),
     watchdog=dict(quick=600, thorough=7200),
     assumptions=[CHK_ASSUMPTION, "complete for single- and two-square boards, files, ranks, empty, full; other boards sampled "
-                 "(every operation acts square-wise)", "the state of the iterator after nth returned None is not judged"],
+                 "(every operation acts square-wise)", "after nth returned None the iterator must be exhausted (judged since the build phase: nth consumes what it skips)"],
 )
 
 PROPS["C19"] = dict(
